@@ -21,6 +21,7 @@ extern "C" {
 void preprocess_verif_sem_init(void *sem, unsigned int value) __attribute__((weak));
 void preprocess_verif_sem_wait(void *sem) __attribute__((weak));
 void preprocess_verif_sem_post(void *sem) __attribute__((weak));
+void preprocess_verif_sem_posted(void *sem) __attribute__((weak));
 void preprocess_verif_mutex_lock(void *mutex) __attribute__((weak));
 void preprocess_verif_mutex_unlock(void *mutex) __attribute__((weak));
 void preprocess_verif_yield(const char *where) __attribute__((weak));
@@ -33,6 +34,7 @@ void preprocess_verif_thread_join(void) __attribute__((weak));
 #define PREPROCESS_VERIF_SEM_INIT(s, v) do { if (preprocess_verif_sem_init) preprocess_verif_sem_init((s), (v)); } while (0)
 #define PREPROCESS_VERIF_SEM_WAIT(s) do { if (preprocess_verif_sem_wait) preprocess_verif_sem_wait(s); } while (0)
 #define PREPROCESS_VERIF_SEM_POST(s) do { if (preprocess_verif_sem_post) preprocess_verif_sem_post(s); } while (0)
+#define PREPROCESS_VERIF_SEM_POSTED(s) do { if (preprocess_verif_sem_posted) preprocess_verif_sem_posted(s); } while (0)
 #define PREPROCESS_VERIF_MUTEX_LOCK(m) do { if (preprocess_verif_mutex_lock) preprocess_verif_mutex_lock(m); } while (0)
 #define PREPROCESS_VERIF_MUTEX_UNLOCK(m) do { if (preprocess_verif_mutex_unlock) preprocess_verif_mutex_unlock(m); } while (0)
 #define PREPROCESS_VERIF_YIELD(w) do { if (preprocess_verif_yield) preprocess_verif_yield(w); } while (0)
